@@ -236,7 +236,7 @@ func (e *Enc) unop(fr *Frame, st *State, ins *ssa.UnOp) *Val {
 		loc := e.locOf(x, ins.X.Type())
 		e.checkNonNil(fr, st, loc, ins.Pos(), "nil-deref")
 		v := e.load(st, loc)
-		if wf := e.wellFormedAt(v, loc.Typ, st, locHeap(loc)); !wf.IsTrue() {
+		if wf := e.wellFormedAt(v, loc.Typ, st, locHeap(loc), e.ptrObj(loc.Base)); !wf.IsTrue() {
 			e.assume(st, wf)
 		}
 		if hn := locHeap(loc); hn != "" {
@@ -713,7 +713,7 @@ func (e *Enc) lookup(fr *Frame, st *State, ins *ssa.Lookup) *Val {
 		return &Val{T: c.App("strbyte", smt.BV(8), x.T, i)}
 	}
 	dom, val := e.mapRead(st, mt, x.T, e.valTerm(k))
-	if wf := e.wellFormedAt(val, mt.Elem(), st, mapHeap(mt)); !wf.IsTrue() {
+	if wf := e.wellFormedAt(val, mt.Elem(), st, mapHeap(mt), x.T); !wf.IsTrue() {
 		e.assume(st, wf)
 	}
 	e.invAssume(st, mapHeap(mt), val, dom)
